@@ -36,7 +36,7 @@ pub fn ref_identical(a: &T, b: &T) -> bool {
 }
 
 pub fn run(ctx: &mut Ctx) {
-    let total = ctx.n(16_000, 300_000);
+    let total = ctx.n(16_000, 200_000);
     for case in ctx.cases(total) {
         ctx.begin_case(case);
         let mut rng = ctx.rng(case);
